@@ -63,7 +63,13 @@ pub fn job_c11(out_dir: &str, tier: &str, seed: u64) {
             let cutsets = gen::light_cut_sets(input.len(), &mut rng, 1);
             for cuts in &cutsets {
                 let tl0 = driver::run(&base, input, cuts, &opts);
-                if tl0.iter().any(|e| e["e"] == "ret" && e["res"] != "ok") { continue; }
+                if tl0.iter().any(|e| e["e"] == "ret" && e["res"] != "ok") {
+                    n += 1;
+                    let why = tl0.iter().filter(|e| e["e"] == "ret" && e["res"] != "ok").map(|e| e["res"].as_str().unwrap_or("?").to_string()).next().unwrap_or_default();
+                    let rec = json!({"id": format!("c11-{n}"), "failed": why});
+                    sh.push(&rec, &json!({"id": rec["id"], "cfg": base, "input": input, "cuts": cuts}), None, true);
+                    continue;
+                }
                 let normal = sink_bytes(&tl0);
                 let ninv = tl0.iter().filter(|e| e["e"] == "ev" && e["k"] != "bo").count();
                 let cap = if quick { 8 } else { 40 };
